@@ -1,6 +1,7 @@
 SPECIFICATION Spec
 CONSTANTS
   Shapes <- SmallShapes
+  RandomBig = 0
   Vals = {0, 1, 2}
 INVARIANTS
   Lemmas
